@@ -50,8 +50,13 @@ d='/verif/seeded/'+name
 am={}
 try: am=json.load(open(d+'/agent_meta.json'))
 except Exception: pass
+first=None
+try: first=json.load(open(d+'/meta.json')).get("first_evaluation")
+except Exception: pass
+if first is None: first=res.split()
 meta={"property": am.get("property", name[:3]), "summary": am.get("summary",""), "needs": am.get("needs",""),
       "confirmed": {"existing_suite_with_change": suite, "demo_with_change": w, "demo_without_change": wo},
+      "first_evaluation": first,
       "quick_checks_that_report_a_violation": res.split(),
       "ran": "tools/seed_eval.sh (git -C /repo apply patch.diff; ./check <id> quick for all ids; git -C /repo checkout -- .)"}
 json.dump(meta,open(d+'/meta.json','w'),indent=1)
